@@ -275,6 +275,53 @@ func (s *Spec) PlantAll(r *rand.Rand) []Planted {
 		addItem(cl, pid)
 		out = append(out, Planted{Spec: cl, Kind: "orphan", Names: [][]string{cl.TypeNames(use)}, Note: "Struct[" + cl.Expr(use, "") + "] without a source"})
 	}
+	// ---- the same providers reached twice: a Set variable listed twice, or
+	// listed directly and again inside another Set (diamond)
+	if len(fn) > 0 {
+		for variant := 0; variant < 2; variant++ {
+			cl := s.Clone()
+			pid := fn[r.Intn(len(fn))]
+			setName := cl.nextTypeName("SharedSet")
+			cl.Sets = append(cl.Sets, &SetDef{Name: setName, Items: []Item{{Prov: pid}}, File: cl.Injectors[0].File})
+			in := cl.Injectors[0]
+			// the provider itself now only comes through the set
+			var items []Item
+			var strip func(its []Item) []Item
+			strip = func(its []Item) []Item {
+				var o []Item
+				for _, it := range its {
+					switch {
+					case it.Inline != nil:
+						it.Inline = strip(it.Inline)
+						if len(it.Inline) > 0 {
+							o = append(o, it)
+						}
+					case it.Set == "" && it.Raw == "" && it.Prov == pid:
+					default:
+						o = append(o, it)
+					}
+				}
+				return o
+			}
+			items = strip(in.Items)
+			for _, sd := range cl.Sets {
+				if sd.Name != setName {
+					sd.Items = strip(sd.Items)
+				}
+			}
+			kind := "dup-set-listed-twice"
+			if variant == 0 {
+				items = append(items, Item{Prov: -1, Set: setName}, Item{Prov: -1, Set: setName})
+			} else {
+				kind = "dup-set-diamond"
+				outer := cl.nextTypeName("OuterSet")
+				cl.Sets = append(cl.Sets, &SetDef{Name: outer, Items: []Item{{Prov: -1, Set: setName}}, File: in.File})
+				items = append(items, Item{Prov: -1, Set: setName}, Item{Prov: -1, Set: outer})
+			}
+			in.Items = items
+			out = append(out, Planted{Spec: cl, Kind: kind, Names: [][]string{provNames(cl, pid)}, Note: "provider " + cl.Provs[pid].Fn + " reached twice through set " + setName})
+		}
+	}
 	// every planted spec must be invalid by the reference
 	var chk []Planted
 	for _, p := range out {
